@@ -189,9 +189,10 @@ func (r *Recorder) Flush() {
 	type outT struct {
 		Parts    map[string]*partRec `json:"parts"`
 		WallS    float64             `json:"wall_s"`
+		PeakKB   int64               `json:"peak_rss_kb"`
 		Overflow []string            `json:"hash_overflow,omitempty"`
 	}
-	o := outT{Parts: r.parts, WallS: time.Since(r.start).Seconds()}
+	o := outT{Parts: r.parts, WallS: time.Since(r.start).Seconds(), PeakKB: peakRSS()}
 	hf, err := os.Create(out + ".hashes")
 	if err == nil {
 		names := make([]string, 0, len(r.parts))
@@ -215,6 +216,24 @@ func (r *Recorder) Flush() {
 }
 
 // Main is the TestMain body of every property package.
+// peakRSS reads the process's peak resident set size (VmHWM) in kB.
+func peakRSS() int64 {
+	b, err := os.ReadFile("/proc/self/status")
+	if err != nil {
+		return 0
+	}
+	for _, l := range strings.Split(string(b), "\n") {
+		if strings.HasPrefix(l, "VmHWM:") {
+			f := strings.Fields(l)
+			if len(f) >= 2 {
+				n, _ := strconv.ParseInt(f[1], 10, 64)
+				return n
+			}
+		}
+	}
+	return 0
+}
+
 func Main(m *testing.M) {
 	logger.SetLevel("FATAL")
 	code := m.Run()
